@@ -335,6 +335,12 @@ func (c *FnCtx) libraryModel(x *ssa.Call, obj *types.Func, common *ssa.CallCommo
 					if nt, ok := types.Unalias(pt.Elem()).(*types.Named); ok {
 						stt := nt.Underlying().(*types.Struct)
 						key := nt.Obj().Name() + "." + stt.Field(fa.Field).Name()
+						for _, ge := range c.g.contracts.Guards {
+							if ge.Mutex != key {
+								continue
+							}
+							c.acquireGuarded(st, reach, c.term(fa.X), nt, stt, ge, strings.HasSuffix(obj.Name(), "Unlock"))
+						}
 						for i, le := range c.g.contracts.Locks {
 							if le.Field != key {
 								continue
@@ -489,5 +495,68 @@ func (c *FnCtx) wrapFacts(e Term, common *ssa.CallCommon, st *State) {
 			// errors.Is follows the chain: whatever the wrapped error matches, the wrapper matches
 			c.define(Term{fmt.Sprintf("(forall ((y! Int)) (! (=> (err_is %s y!) (err_is %s y!)) :pattern ((err_is %s y!))))", w.S, e.S, w.S), SBool})
 		}
+	}
+}
+
+// acquireGuarded: the mutex of owner (a *T) was acquired: the object behind the guarded pointer field is
+// whatever other goroutines left there - a new value, related to the last one this goroutine saw only by
+// the rely condition (over "before" and "after").
+func (c *FnCtx) acquireGuarded(st *State, reach *Term, owner Term, nt *types.Named, stt *types.Struct, ge GuardEntry, release bool) {
+	for i := 0; i < stt.NumFields(); i++ {
+		f := stt.Field(i)
+		if f.Name() != ge.Field {
+			continue
+		}
+		pt, ok := f.Type().Underlying().(*types.Pointer)
+		if !ok {
+			c.abort("guards %s: field %s is not a pointer", ge.Mutex, ge.Field)
+			return
+		}
+		ok2, os := c.g.heapKeyFor(nt)
+		oh := c.heap(st, ok2, os)
+		info := c.g.u.structInfoOf(c.g.u.sortOf(nt))
+		p := mk(SInt, info.fields[i].acc, sel(oh, owner))
+		k, hs := c.g.heapKeyFor(pt.Elem())
+		h := c.heap(st, k, hs)
+		gaKey := "GA_" + mangle(ge.Mutex+"."+ge.Field)
+		c.g.heapSorts[gaKey] = c.g.u.sortOf(pt.Elem())
+		if release {
+			// guarantee: what this critical section leaves behind relates to what it found by the same
+			// condition the other goroutines are relied upon to respect
+			acq := c.heap(st, gaKey, c.g.u.sortOf(pt.Elem()))
+			env := c.envFor(st, c.entry)
+			if env.vars == nil {
+				env.vars = map[string]TV{}
+			}
+			env.vars["before"] = TV{acq, pt.Elem()}
+			env.vars["after"] = TV{sel(h, p), pt.Elem()}
+			tv, err := c.evalSpec(ge.Rely, env)
+			if err != nil {
+				c.abort("guards %s: guarantee: %v", ge.Mutex, err)
+				return
+			}
+			c.oblige("guarantee", ge.Mutex+"@"+c.posString(token.NoPos), *reach, tv.t, "releasing "+ge.Mutex+": "+ge.Text)
+			return
+		}
+		before := sel(h, p)
+		after := c.fresh("guarded", c.g.u.sortOf(pt.Elem()))
+		st.heaps[gaKey] = after
+		for _, fct := range c.g.u.rangeFacts(after, pt.Elem(), 2) {
+			c.define(fct)
+		}
+		st.heaps[k] = store(h, p, after)
+		env := c.envFor(st, c.entry)
+		if env.vars == nil {
+			env.vars = map[string]TV{}
+		}
+		env.vars["before"] = TV{before, pt.Elem()}
+		env.vars["after"] = TV{after, pt.Elem()}
+		tv, err := c.evalSpec(ge.Rely, env)
+		if err != nil {
+			c.abort("guards %s: rely: %v", ge.Mutex, err)
+			return
+		}
+		c.assume(*reach, tv.t)
+		c.g.note("guarded state (%s): other goroutines change it only according to the stated rely condition", ge.Text)
 	}
 }
